@@ -22,13 +22,14 @@ type powCase struct {
 
 type c14Req struct {
 	oracleFiles
-	Part      string    `json:"part"` // gadget | witness
-	Cases     []powCase `json:"cases"`
-	Instance  string    `json:"instance"`
-	Histories string    `json:"histories"`
-	NWitness  int       `json:"nwitness"`
-	FinalLen  int       `json:"final_len"` // witness: truncate the final polynomial (response comparison only)
-	Shard     int       `json:"shard"`
+	Part       string    `json:"part"` // gadget | witness
+	Cases      []powCase `json:"cases"`
+	Instance   string    `json:"instance"`
+	Histories  string    `json:"histories"`
+	NWitness   int       `json:"nwitness"`
+	FinalLen   int       `json:"final_len"`   // witness: truncate the final polynomial (response comparison only)
+	ZeroRounds bool      `json:"zero_rounds"` // witness: a description with num_query_rounds = 0 - the condition on the response is all that is left of FRI
+	Shard      int       `json:"shard"`
 }
 
 func init() { drv.Register("c14", c14) }
@@ -119,6 +120,11 @@ func c14(raw json.RawMessage, resp *drv.Response) error {
 				l.PWPI.Proof.OpeningProof.FinalPoly.Coeffs = append(cs[:0:0], cs[:req.FinalLen]...)
 			}
 			l.PWPI.Proof.OpeningProof.PowWitness = gl.NewVariable(new(big.Int).Set(w))
+			if req.ZeroRounds {
+				l.PWPI.Proof.OpeningProof.QueryRoundProofs = l.PWPI.Proof.OpeningProof.QueryRoundProofs[:0:0]
+				l.Common.Config.FriConfig.NumQueryRounds = 0
+				l.Common.FriParams.Config.NumQueryRounds = 0
+			}
 			m, _ := leafValues(l, o)
 			pis := []*big.Int{}
 			for _, v := range l.PWPI.PublicInputs {
@@ -141,7 +147,7 @@ func c14(raw json.RawMessage, resp *drv.Response) error {
 					gotResp = got.vals[i]
 				}
 			}
-			resp.Count(fmt.Sprintf("powwitness/%s/%d/%s", req.Instance, req.FinalLen, w), false)
+			resp.Count(fmt.Sprintf("powwitness/%s/%d/%v/%s", req.Instance, req.FinalLen, req.ZeroRounds, w), false)
 			if wantResp == nil || gotResp == nil || wantResp.Cmp(gotResp) != 0 {
 				resp.Violate("c14/witness/response-mismatch", fmt.Sprintf("%s: witness %s: response %v in the code, %v by the reference transcript", req.Instance, w, gotResp, wantResp), map[string]any{"witness": w.String()})
 				continue
